@@ -146,6 +146,20 @@ def run_case(ctx, case):
         if not np.array_equal(Fn, keepF) or not np.array_equal(fn, keepf) or np.shares_memory(Fn, other1) or np.shares_memory(fn, other2):
             ctx.violation('cont:result-overwritten-by-later-transform', '%s: an array returned by to_fourier/to_real changed (or shares memory) after a later transform on the same Domain (L=%d)' % (kind, L))
             return
+        # one work buffer refilled in place between two calls (a sweep over widths writes each function into the same array):
+        # the transform is a function of the CONTENTS handed over, not of the array object
+        ctx.hook('refilled_buffer_probe')
+        buf = np.array(np.cos(r) * f)
+        d.to_fourier(buf)
+        buf[:] = f
+        again = np.asarray(d.to_fourier(buf))
+        bufk = np.array(F * 0.5)
+        d.to_real(bufk)
+        bufk[:] = F
+        again_r = np.asarray(d.to_real(bufk))
+        if not np.array_equal(again, np.asarray(d.to_fourier(np.array(f)))) or not np.array_equal(again_r, np.asarray(d.to_real(np.array(F)))):
+            ctx.violation('cont:stale-result-for-refilled-buffer', '%s: transforming one array object twice, with its contents changed in place in between, returns something else than the transform of the current contents (L=%d)' % (kind, L))
+            return
         fam.append({'dr': dr, 'L': L, 'r': r, 'k': k, 'f': f, 'F': F, 'V': V, 'Fn': np.asarray(Fn), 'fn': np.asarray(fn)})
     ctx.hook('family')
     n0 = fam[0]['L']
